@@ -167,6 +167,8 @@ def run(prog, rep, tier):
     # content is copied through io::copy on a bounded take, never materialised: ArchiveFileBlock::dump
     dump = prog.body('mla', 'ArchiveFileBlock::<T>::dump')
     if dump is not None:
+        from ..inline import inlined_body
+        dump = inlined_body(prog, dump)   # the bounded copy may be a private helper
         bad = [b for b in dump.calls() if b.term.cmethod in ('read_to_end', 'to_vec', 'collect', 'with_capacity') or 'vec::from_elem' in cnorm(b.term)]
         cps = [b for b in dump.calls() if cnorm(b.term) == 'std::io::copy']
         ok = not bad and len(cps) == 1 and 'Vec<' not in cps[0].term.cargs
